@@ -19,6 +19,8 @@ class Obs:
         props = set(props)
         if rule in ("TRACE-SCORE", "SCORE-AGG", "SCORE-GATE"):
             props |= {"C01", "C02"}  # a stored score that is not the density of the stored choices breaks both
+        if rule in ("SCORE-AGG", "SCORE-GATE"):
+            props |= {"C34"}  # parent score = aggregate of the STORED sub-traces' scores: "the subtrace's score is that call's contribution"
         self.items.append(dict(props=props, rule=rule, instance=instance, ok=bool(ok), construct=construct or instance,
                                derived=derived if isinstance(derived, str) else show(derived), expected=expected, where=where))
         return bool(ok)
